@@ -126,7 +126,9 @@ var (
 					if _, err = w.Write(source); err != nil {
 						abortWithErr(err)
 					}
-					_ = w.Close()
+					if err = w.Close(); err != nil {
+						abortWithErr(err)
+					}
 				}
 			}
 
